@@ -122,7 +122,8 @@ struct Plan {
     changes: Vec<&'static str>,
     history: Vec<usize>,
     /// what somebody else does to the output location before step i: 0 nothing, 1 removes the first output file,
-    /// 2 overwrites the last one with other bytes, 3 removes Codable.swift (the last file where there is none)
+    /// 2 overwrites the last one with other bytes, 3 removes Codable.swift (the last file where there is none),
+    /// 4 overwrites Codable.swift (the first file where there is none)
     interfere: Vec<u8>,
     /// settings of all runs of the history (from a configuration file)
     cfg: LangCfg,
@@ -181,7 +182,7 @@ pub fn run(ctx: &Ctx) -> (Spec, Report) {
                 }
                 // the output location is not the tool's alone (a checkout that ignores generated support files, a clean-up
                 // script, an editor): whatever happened to it between two runs, the next run restores what it is responsible for
-                for kind in 1..=3u8 {
+                for kind in 1..=4u8 {
                     for history in [vec![0, 0], vec![0, 1, 1], vec![0, 0, 1]] {
                         for at in 1..history.len() {
                             let mut interfere = vec![0u8; history.len()];
@@ -202,7 +203,7 @@ pub fn run(ctx: &Ctx) -> (Spec, Report) {
         let (vs, ch) = mk_versions(&mut rng, nv, n_crates, &mut counter);
         let len = rng.range(3, 6);
         let history: Vec<usize> = (0..len).map(|_| rng.below(nv)).collect();
-        let interfere: Vec<u8> = (0..len).map(|i| if i > 0 && rng.chance(1, 4) { rng.range(1, 3) as u8 } else { 0 }).collect();
+        let interfere: Vec<u8> = (0..len).map(|i| if i > 0 && rng.chance(1, 4) { rng.range(1, 4) as u8 } else { 0 }).collect();
         let cfg = if rng.coin() { LangCfg::basic(lang) } else { rich_cfg(lang, &mut rng) };
         plans.push(Plan { lang, multi, n_crates, versions: vs, changes: ch, history, interfere, cfg });
     }
@@ -267,9 +268,14 @@ pub fn run(ctx: &Ctx) -> (Spec, Report) {
                     2 => {
                         let _ = std::fs::write(target(names[names.len() - 1]), b"// somebody else's bytes\n");
                     }
-                    _ => {
+                    3 => {
                         let n = names.iter().find(|n| n.ends_with("Codable.swift")).copied().unwrap_or(names[names.len() - 1]);
                         let _ = std::fs::remove_file(target(n));
+                    }
+                    _ => {
+                        // a file of somebody else's under the name of the shared support file (of the first module elsewhere)
+                        let n = names.iter().find(|n| n.ends_with("Codable.swift")).copied().unwrap_or(names[0]);
+                        let _ = std::fs::write(target(n), b"// not written by the tool\npublic struct SomethingElse {}\n");
                     }
                 }
                 rep.count("steps_after_outside_interference", 1);
@@ -349,7 +355,7 @@ pub fn run(ctx: &Ctx) -> (Spec, Report) {
     let _ = std::fs::remove_dir_all(&scratch);
     let spec = Spec {
         level: "exploration",
-        rule: format!("{} histories of runs of the real binary into one persistent output location: all 30 histories of length <= 4 over 2 source versions for every (language, mode) pair (once under the default settings, then under richer ones from a configuration file: packages, prefixes, acronyms, Swift decorator and CodableVoid conformance lists of three and four entries), 15 more per pair in which somebody else removes or overwrites an output file (a module, Codable.swift) between two runs, the same in a quarter of the steps of the seeded histories, plus seeded histories of 3-6 runs over 2-4 versions (type added / removed / renamed / moved between crates, () use toggled for Codable.swift, field toggled); every run under strace; oracle: an unchanged re-run produces no create/truncate/write/rename/unlink event on the output location and leaves bytes, mtime_ns and inode of every file unchanged; after every run each file a fresh run of that version creates has exactly the fresh run's bytes; distinct = (kind of step, language, mode, change kind)", plans.len()),
+        rule: format!("{} histories of runs of the real binary into one persistent output location: all 30 histories of length <= 4 over 2 source versions for every (language, mode) pair (once under the default settings, then under richer ones from a configuration file: packages, prefixes, acronyms, Swift decorator and CodableVoid conformance lists of three and four entries), 20 more per pair in which somebody else removes or overwrites an output file (a module, Codable.swift) between two runs, the same in a quarter of the steps of the seeded histories, plus seeded histories of 3-6 runs over 2-4 versions (type added / removed / renamed / moved between crates, () use toggled for Codable.swift, field toggled); every run under strace; oracle: an unchanged re-run produces no create/truncate/write/rename/unlink event on the output location and leaves bytes, mtime_ns and inode of every file unchanged; after every run each file a fresh run of that version creates has exactly the fresh run's bytes; distinct = (kind of step, language, mode, change kind)", plans.len()),
         assumptions: vec![
             "files left behind by earlier versions (a crate that disappeared, an unused Codable.swift) are not the last run's responsibility".into(),
             "multi-file mode is exercised for TypeScript, Kotlin, Swift and Python (Scala and Go have no multi-file support)".into(),
